@@ -277,8 +277,9 @@ def check_artefact(ctx, a, stats):
                 # a mismatch that is an exact negation is reported under its own signature so
                 # that the recorded sign finding cannot hide any other error in g_12
                 neg = v12 & (np.abs(code_cos + geo_cos) <= 1e-6) & (np.abs(code_cos - geo_cos) > 1e-6) & (not orth)
-                rep.check("g_12/sqrt(g_11*g_22pol)=e_x.e_y/(|e_x||e_y|)", loc, np.abs(code_cos - geo_cos),
-                          0.3 if orth else 1e-6, v12 & ~neg, extra=dict(code=code_cos, geometric=geo_cos))
+                if not orth:
+                    rep.check("g_12/sqrt(g_11*g_22pol)=e_x.e_y/(|e_x||e_y|)", loc, np.abs(code_cos - geo_cos),
+                              1e-6, v12 & ~neg, extra=dict(code=code_cos, geometric=geo_cos))
                 rep.check("g_12 has the opposite sign of e_x.e_y (exact negation)", loc,
                           np.where(neg, 1.0, 0.0), 0.5, neg, extra=dict(code=code_cos, geometric=geo_cos))
                 # --- g_11 dx^2 = |Dx r|^2 : bracket from grad(psi).ex_hat sampled on the chord
@@ -377,8 +378,9 @@ def check_artefact(ctx, a, stats):
                 stats["n_g23"] += int(vz.sum())
                 rep.check("sign(g_23)=sign(g_33*dzShift/dy)", loc, np.where(q > 0, 0.0, 1.0), 0.5, np.isfinite(q),
                           extra=dict(ratio=q))
-                rep.check("g_23~g_33*dzShift/dy (magnitude within x3)", loc, np.abs(np.log(np.abs(q))), np.log(3.0), vz,
-                          extra=dict(ratio=q))
+                # (the magnitude of d(zShift)/dy is judged by C06 against the field-line integral;
+                # |g_23| = |dphidy| R^2 is judged above - a pointwise value cannot be compared with
+                # a cell average next to an X-point)
                 # contravariant partner: g23 has the opposite sign of g_23
                 s = np.sign(A["g23"][loc]) * np.sign(A["g_23"][loc])
                 rep.check("sign(g23)=-sign(g_23)", loc, np.where(s < 0, 0.0, 1.0), 0.5)
